@@ -16,3 +16,29 @@ package neo
 //@   callsite[c18-operator] ValidateOwner#1 requires arg1 == gop
 //@   -- installing a trust root changes storage only with the operator's witness
 //@   ensures[c18-witness] Store != old(Store) ==> wit
+
+// ---- cross-chain message authentication (C24) -------------------------------------------------------
+//@ func getConsensusValByChainId
+//@   property C24
+//@   mode abstract
+//@   requires native != nil
+//@   modifies nothing
+//@   ensures err == nil ==> r0 != nil
+
+//@ func VerifyCrossChainMsgSig
+//@   property C24
+//@   mode abstract
+//@   requires native != nil && crossChainMsg != nil
+//@   modifies nothing
+//@   ghost var hashEq bool = false
+//@   ghost var gmsg Bytes
+//@   ghost var ginv Bytes
+//@   ghost var gver Bytes
+//@   set after "crossChainMsgConsensus, err := crossChainMsg.GetScriptHash()" : hashEq := neoConsensus.NextConsensus == crossChainMsgConsensus
+//@   set after "msg, err := crossChainMsg.GetMessage()" : gmsg := bytes(msg)
+//@   set after "invScript, _ := hex.DecodeString(crossChainMsg.Witness.InvocationScript)" : ginv := bytes(invScript)
+//@   set after "verScript, _ := hex.DecodeString(crossChainMsg.Witness.VerificationScript)" : gver := bytes(verScript)
+//@   -- accepted only if the message's verification script hashes to the tracked next-consensus script hash ...
+//@   ensures[c24-tracked-script] err == nil ==> hashEq
+//@   -- ... and the multi-signature witness built from the message's own scripts verifies the unsigned message
+//@   ensures[c24-witness] err == nil ==> neoWitnessOK(gmsg, ginv, gver)
